@@ -897,6 +897,7 @@ fn main() {
     let mut levels = vec![
         mk("vi-non-utf8-string-literals(pretty)".into(), "quar".into(), 1, 1, true, DEFAULT_STACK, false),
         mk("vii-string-escapes(pretty)".into(), "esc".into(), 64, 64, true, DEFAULT_STACK, true),
+        mk("viii-long-multibyte-literals".into(), "long".into(), 256, 128, false, DEFAULT_STACK, true),
         mk("iv-nesting-1..128@64MiB".into(), "nest".into(), 64, 32, tier == Tier::Thorough, NEST_STACK, true),
         mk("iv-nesting-{1,2,3,64,128}@64MiB(pretty)".into(), "nestP".into(), 8, 8, true, NEST_STACK, true),
         mk("iii-E3-seed-mutants".into(), "mut".into(), 512, 128, tier == Tier::Thorough, DEFAULT_STACK, true),
@@ -982,6 +983,7 @@ fn main() {
          (ii) toksF:0:{fl} = all sequences of 0..={fl} lexemes over the FULL alphabet ({full} lexemes) joined by one space, plus toksC:{kl}:{kl} = all sequences of exactly {kl} lexemes over the CORE alphabet ({core} lexemes, a subset of FULL); pretty_parse is called on the levels marked pretty_parse=true in `levels` (their names end in `(pretty)`), report() and Display on all; FULL = {tf:?}; CORE = {tc:?}; \
          Quarantine: on levels marked display_skipped_on_quarantined_inputs the Display (to_string) stage of errors is skipped for inputs containing a backslash followed by two hex digits >= 0x80 (counter display_stage_skipped_on_quarantined_inputs), because formatting an error that carries a non-UTF-8 text token aborts a debug-assertions build (uncatchable; a process spawn costs ~0.2 s here) and one abort per input would dominate the run; family (vi) quar = {nq} hand-written inputs with such literals in every syntactic position runs with nothing skipped (after an abort in the Display stage of one entry point the input is re-run with only that stage masked, so every entry point is observed). \
          (vii) esc = {nesc} escape sequences (\\u{{D}} for hex digit strings of 1..=12 digits: all zeros, one then zeros, all F, one-zeros-41, zero-padded 41, with `_` separators; surrogate / range boundaries; byte escapes below 0x80; single-character escapes; malformed variants) in {nctx} syntactic positions of a string literal; \
+         (viii) long = string literals of 1..=140 copies of a / e-acute / euro sign / emoji behind 0..3 ASCII characters, in 6 shapes whose annotation does not fit the value (error messages quoting the value); \
          (iii) mut = for each of the {ns} seed sentences (arrays of lexemes, see families.rs SEEDS): the seed, every single-lexeme deletion, duplication, replacement by every FULL lexeme, and adjacent swap (mutS = the same without the replacements); \
          (iv) nest = {nt} nesting templates x depth 1..=128 on a 64 MiB thread (nestP = depths 1,2,3,64,128 of the same), plus depth 128 of every template on 256 KiB / 1 MiB / 8 MiB threads (informational except 8 MiB); templates = {tn:?}; \
          (v) ann = every numeral lexeme x sign x annotation type product `( <sign><numeral> : <type> )`. \
